@@ -295,7 +295,8 @@ static void run_orderings(void)
 {
 	int maxev = (int)xp_param("max_events", 3);
 	/* which events become ready together: bit0 owner reply, bit1 expiry of request 1, bit2 caller disconnect, bit3 owner disconnect, bit4 expiry of a second request (other caller) */
-	int nsub = 31;
+	/* bit5: a fresh request of the second caller arrives in the same batch (its forward to the owner may fail when the owner's end is processed... or not yet) */
+	int nsub = 63;
 	int sub = xp_choose(nsub, XP_SCENARIO, "event-subset") + 1;
 	int nev = __builtin_popcount((unsigned)sub);
 	if (nev > maxev) {
@@ -331,6 +332,9 @@ static void run_orderings(void)
 	}
 	if (sub & (2 | 16)) {
 		sim_advance(1000000000ULL); /* both requests were created at the same virtual time: bit1 and bit4 are raised by the same advance */
+	}
+	if (sub & 32) {
+		jx_sendf(K2, "{\"id\":\"r3\",\"method\":\"set\",\"params\":{\"path\":\"e\",\"value\":4,\"timeout\":1}}");
 	}
 	if (sub & 4) {
 		if (how_gone) {
@@ -377,6 +381,14 @@ static void run_orderings(void)
 			fail_t(key, "second caller received %d answers instead of exactly one (events %d, order #%d, split %d)", n, sub, perm_index, split_at);
 		}
 	}
+	if ((sub & 32)) {
+		int n = count_answers(K2, "\"r3\"", 0, NULL);
+		if (n != 1) {
+			char key[160];
+			snprintf(key, sizeof(key), "same-iteration:fresh-request-%d-answers:events=%d", n, sub);
+			fail_t(key, "a request that arrived in the same batch received %d answers instead of exactly one (events %d, order #%d, split %d)", n, sub, perm_index, split_at);
+		}
+	}
 	/* no released object is touched: descriptor use after close shows as a hygiene event, memory as an ASan report (= crash verdict) */
 	for (int i = 0; i < sim_hygiene_count(); i++) {
 		const char *k = sim_hygiene_key(i);
@@ -411,6 +423,6 @@ const struct driver drv_c14 = {
     .name = "c14",
     .property = "C14",
     .run = run,
-    .rule = "section 0: product {12 request timeout forms} x {5 element timeout forms} x {set, call} x {expiry + late reply, reply 1 ns before the deadline, two requests with different deadlines} x caller transport on the virtual clock (deadline - 1 ns: nothing; deadline: exactly one error in that iteration); section 1: every non-empty subset of {owner reply, expiry, caller gone, owner gone, second request's expiry} made ready at the same instant x every dispatch order x every split of the batch into two iterations x transports x FIN/reset; every execution is non-trivial",
+    .rule = "section 0: product {12 request timeout forms} x {5 element timeout forms} x {set, call} x {expiry + late reply, reply 1 ns before the deadline, two requests with different deadlines} x caller transport on the virtual clock (deadline - 1 ns: nothing; deadline: exactly one error in that iteration); section 1: every non-empty subset of {owner reply, expiry, caller gone, owner gone, second request's expiry, a fresh request of the second caller} made ready at the same instant x every dispatch order x every split of the batch into two iterations x transports x FIN/reset; every execution is non-trivial",
     .assumptions = "the deadline is compared with (uint64_t)(seconds*1e9) +- 1 ns|timeouts above 1e12 s are only required to arm a timer of at least 1e15 ns|the simulated epoll reports whatever order the explorer picks for descriptors that became ready in the same instant (Linux gives no ordering guarantee)",
 };
